@@ -1942,24 +1942,35 @@ Octagonal_Shape<T>::relation_with(const Congruence& cg) const {
 
   // Find the position value for the hyperplane that satisfies the congruence
   // and is above the lower bound for the shape.
+  // (That is, the least multiple of the modulus that is greater than
+  // or equal to the lower bound: note that `/' and `%' truncate.)
   PPL_DIRTY_TEMP_COEFFICIENT(min_value);
   min_value = min_numer / min_denom;
+  if (min_value * min_denom < min_numer) {
+    ++min_value;
+  }
   const Coefficient& modulus = cg.modulus();
   signed_distance = min_value % modulus;
-  min_value -= signed_distance;
-  if (min_value * min_denom < min_numer) {
+  if (signed_distance < 0) {
+    signed_distance += modulus;
+  }
+  if (signed_distance != 0) {
     min_value += modulus;
+    min_value -= signed_distance;
   }
 
   // Find the position value for the hyperplane that satisfies the congruence
   // and is below the upper bound for the shape.
   PPL_DIRTY_TEMP_COEFFICIENT(max_value);
   max_value = max_numer / max_denom;
-  signed_distance = max_value % modulus;
-  max_value += signed_distance;
   if (max_value * max_denom > max_numer) {
-    max_value -= modulus;
+    --max_value;
   }
+  signed_distance = max_value % modulus;
+  if (signed_distance < 0) {
+    signed_distance += modulus;
+  }
+  max_value -= signed_distance;
 
   // If the upper bound value is less than the lower bound value,
   // then there is an empty intersection with the congruence;
